@@ -227,6 +227,26 @@ macro_rules! shape {
                             exp,
                         );
                     }
+                    // ---- or_give_up with a constructor that captures nothing (zero-sized closure): its
+                    // invocations are counted in a thread-local instead of a captured cell
+                    {
+                        FROM_CALLS.with(|c| c.set(0));
+                        let got = recv(r).or_give_up(|| {
+                            FROM_CALLS.with(|c| c.set(c.get() + 1));
+                            E::mk(99)
+                        });
+                        let calls = FROM_CALLS.with(|c| c.get());
+                        let exp = match r {
+                            Recv::Fall => obs("Err(E(99))".into(), 1, "".into()),
+                            Recv::Ok => obs("Ok(T(11))".into(), 0, "".into()),
+                            Recv::Err => obs("Err(E(21))".into(), 0, "".into()),
+                        };
+                        push(
+                            format!("or_give_up(zero-sized constructor)/{:?}", r),
+                            obs(show_r(&got), calls, "".into()),
+                            exp,
+                        );
+                    }
                     // ---- optional
                     {
                         let got = recv(r).optional();
